@@ -204,6 +204,7 @@ pub struct ExecStats {
     pub interp_steps: u64,
     pub probes_fired: u64,
     pub loop_iterated: u64,
+    pub tail_exits: u64,
 }
 
 use std::sync::atomic::{AtomicU64, Ordering};
@@ -214,6 +215,7 @@ pub static G_HOST_TRAPS: AtomicU64 = AtomicU64::new(0);
 pub static G_STEPS: AtomicU64 = AtomicU64::new(0);
 pub static G_PROBES: AtomicU64 = AtomicU64::new(0);
 pub static G_LOOPS: AtomicU64 = AtomicU64::new(0);
+pub static G_TAILS: AtomicU64 = AtomicU64::new(0);
 
 pub fn flush_stats(s: &ExecStats) {
     G_CALLS.fetch_add(s.executed_calls, Ordering::Relaxed);
@@ -223,6 +225,7 @@ pub fn flush_stats(s: &ExecStats) {
     G_STEPS.fetch_add(s.interp_steps, Ordering::Relaxed);
     G_PROBES.fetch_add(s.probes_fired, Ordering::Relaxed);
     G_LOOPS.fetch_add(s.loop_iterated, Ordering::Relaxed);
+    G_TAILS.fetch_add(s.tail_exits, Ordering::Relaxed);
 }
 
 pub fn stats_json() -> serde_json::Value {
@@ -234,6 +237,7 @@ pub fn stats_json() -> serde_json::Value {
         "interpreter_instructions_retired": G_STEPS.load(Ordering::Relaxed),
         "probe_events_observed": G_PROBES.load(Ordering::Relaxed),
         "calls_with_a_repeated_mark(loop_iterated)": G_LOOPS.load(Ordering::Relaxed),
+        "exit_instrumented_activations_left_by_tail_call": G_TAILS.load(Ordering::Relaxed),
     })
 }
 
@@ -668,10 +672,26 @@ pub fn judge_exec(id: &str, sc: &Scenario, stats: &mut ExecStats) -> (Judged, Ru
                                 break;
                             }
                         } else {
+                            // an activation of the original that ends with a call and nothing after it
+                            // left through a tail call (every ordinary call is followed by an anchor)
+                            let tail_exit = acts_o
+                                .get(ai)
+                                .map(|a| matches!(direct_events(&o.trace, a.1, a.2).last(), Some((_, Ev::Enter(_)))))
+                                .unwrap_or(false);
+                            if tail_exit {
+                                stats.tail_exits += 1;
+                            }
                             let last_is_probe_run = {
-                                // nothing but probes after our probe
+                                // nothing but probes after our probe (and, for a tail call, the callee)
                                 match d.iter().position(|(_, ev)| *ev == p) {
-                                    Some(pp) => d[pp + 1..].iter().all(|(_, ev)| is_probe(ev)),
+                                    Some(pp) => {
+                                        let rest = &d[pp + 1..];
+                                        let rest = match rest.last() {
+                                            Some((_, Ev::Enter(_))) if tail_exit => &rest[..rest.len() - 1],
+                                            _ => rest,
+                                        };
+                                        rest.iter().all(|(_, ev)| is_probe(ev))
+                                    }
                                     None => false,
                                 }
                             };
